@@ -1,5 +1,6 @@
 (* Props_C06.v — C06: the server answers every live want once the block is available. *)
 From BS Require Import Bytes Cid Prefix Proto Types Server Server_lemmas Server_inv Server_proofs Server_live Tie_consts.
+From BS Require Import Tie_server.   (* tie lemmas: a source edit that changes what they extract breaks this file's closure *)
 Open Scope N_scope.
 
 (* p wants c (reference view) at the cut after ops1; during ops2 the block becomes available — it is
